@@ -1086,7 +1086,11 @@ impl Monitor {
         }
         for t in &got {
             if !expected_failed.contains(t) && !ambiguous.contains(t) {
-                let was = Self::core_state_label(pre, *t);
+                let mut was = Self::core_state_label(pre, *t).to_string();
+                if was == "multinode" && pre_status.get(t) != Some(&TStatus::Started) {
+                    // placed on its nodes, start not reported yet (mechanism of a listed finding)
+                    was = format!("multinode-never-reported-started reason={reason:?}");
+                }
                 self.v(
                     Prop::C07,
                     "failed-without-penalty-reason",
